@@ -32,7 +32,10 @@ func src(name string, v int) string {
 	tag := name + "#" + strconv.Itoa(v)
 	if name[0] == 'i' {
 		if v%2 == 0 {
-			return "(" + tag + " {%= user.Id %}{% if user.Status == 7 %}+{% else %}-{% endif %})"
+			// (condition helpers, modifiers by long and short name: the
+			// registries' getters are shared by all renderers)
+			return "(" + tag + " {%= user.Id %}{% if user.Status == 7 %}+{% else %}-{% endif %}{% if lenGt0(user.Id) %}g{% endif %}{% if lenEq0(user.Id) %}e{% endif %}" +
+				"{% switch %}{% case lenGtq0(user.Name) %}q{% default %}d{% endswitch %}{%= user.Id|default(\"x\")|he %}{%= nope|def(\"y\")|htmlEscape %})"
 		}
 		return "(" + tag + " {% for i := 0; i < 2; i++ separator . %}{%= i %}{% endfor %}{% htmlescape %}{%= user.Name %}{% endhtmlescape %})"
 	}
